@@ -42,7 +42,7 @@ func init() {
 			js = append(js, J("socket", "VX_C05_RawSizeIndependent", 1, 2), J("socket", "VX_C05_RawSizeIndependent", 3, 0))
 			js = append(js, J("socket", "VX_C05_ReusedMessage", 1), J("socket", "VX_C20_Args", 2, -1, 3), J("proto/jsonproto", "VX_C05_JSONRetained", 1), J("socket", "VX_C05_RawRetained", 1), J("proto/thriftproto", "VX_C05_ThriftRetained", 1),
 				J("socket", "VX_C05_RawLongFields", 256, 10), J("socket", "VX_C05_RawLongFields", 10, 256), J("socket", "VX_C05_RawLongFields", 255, 255), J("socket", "VX_C05_RawLongFields", 300, 700), J("socket", "VX_C05_RawLongFields", 0, 65000),
-				J("proto/httproto", "VX_C05_HTTPGzipStream", 100), J("proto/thriftproto", "VX_C05_ThriftPipeSeq", 60),
+				J("proto/httproto", "VX_C05_HTTPGzipStream", 100), J("proto/thriftproto", "VX_C05_ThriftPipeSeq", 60), J("proto/thriftproto", "VX_C01_ThriftMetaSeq", 0),
 				J("proto/thriftproto", "VX_C05_ThriftConcurrentPack", 1, 1), J("proto/thriftproto", "VX_C05_ThriftConcurrentPack", 0, 1))
 			if tier == "thorough" {
 				js = append(js, J("proto/thriftproto", "VX_C05_ThriftConcurrentPack", 1, 2), J("proto/thriftproto", "VX_C05_ThriftConcurrentPack", 0, 2))
@@ -294,7 +294,7 @@ func init() {
 		bounds:      "1 in-flight handler, 1 outstanding call, scripted interleavings (3 variants); handler durations finite; also: two outstanding calls answered one by one during Close, a handler that pushes or awaits a nested reply during Close, overlapping Close calls (session/session, peer/session), Close waiting while the connection is lost, session histories of 4 (quick) / 6 (thorough) events; rounds 5-6: Peer.Close with a running handler on a redialled session (default and custom id)",
 	})
 	registerCheck(&checkSpec{
-		id: "C01", dirs: []string{"socket", "."}, level: "other",
+		id: "C01", dirs: []string{"socket", ".", "proto/thriftproto"}, level: "other",
 		jobs: func(tier string) []job {
 			js := []job{
 				J("socket", "VX_C01_BodyStableAcrossFrames", 2, 1, 0, 0), J("socket", "VX_C01_BodyStableAcrossFrames", 1, 2, 1, 0), J("socket", "VX_C01_BodyStableAcrossFrames", 2, 2, 0, 1),
@@ -306,16 +306,17 @@ func init() {
 				J(".", "VX_C01_CtrlOverlap", 1, 1), J(".", "VX_C01_CtrlOverlap", 0, 1),
 				J(".", "VX_C01_TwoSessionsSameSeq", 0, 1), J(".", "VX_C01_TwoSessionsSameSeq", 1, 1), J(".", "VX_C01_SeqAcrossRedial", 2), J(".", "VX_C01_SeqAcrossRedial", 3),
 				J("socket", "VX_C01_OverlappingPacks", 0, 1), J("socket", "VX_C01_OverlappingPacks", 1, 1), J("socket", "VX_C01_OverlappingPacks", 2, 0), J("socket", "VX_C01_OverlappingPacks", 3, 1), J("socket", "VX_C01_OverlappingPacks", 4, 1),
+				J("proto/thriftproto", "VX_C01_ThriftMetaSeq", 0),
 			}
 			js = append(js, msgSeqJobs(tier)...)
 			if tier == "thorough" {
-				js = append(js, J("socket", "VX_C01_BodyStableAcrossFrames", 3, 3, 0, 9), J(".", "VX_C02_Replies", 0, 0, 1, 2, 0, 0, 1), J(".", "VX_C01_ConcurrentCalls", 2, 1), J(".", "VX_C01_MetaAcrossRequests", 0, 4, 0), J(".", "VX_C01_MetaAcrossRequests", 1, 4, 1))
+				js = append(js, J("proto/thriftproto", "VX_C01_ThriftMetaSeq", 1), J("socket", "VX_C01_BodyStableAcrossFrames", 3, 3, 0, 9), J(".", "VX_C02_Replies", 0, 0, 1, 2, 0, 0, 1), J(".", "VX_C01_ConcurrentCalls", 2, 1), J(".", "VX_C01_MetaAcrossRequests", 0, 4, 0), J(".", "VX_C01_MetaAcrossRequests", 1, 4, 1))
 			}
 			return js
 		},
 		assumptions: rootAssume,
 		explanation: "non-interference decomposed: (a) reply correlation by sequence number with two pending calls and a symbolic reply (real bindReply/handleReply), (b) a received body is not aliased to the pooled receive buffer of later frames (real raw Unpack, pooled buffers reused), (c) the handler sees exactly the frame's body and the reply carries the handler's result (real handle/handleCall), (d) recycled messages carry nothing over",
-		bounds:      "2 pending calls, 2 frames, body <= 3 bytes; concurrency of writers and sequence allocation not yet covered (sequential schedules); also: requests over recycled contexts on the same / another session (CALL and PUSH), overlapping invocations of one struct controller built by the real RouteCall, two sessions with equal pending sequence numbers, message sequences of 3/4 solver-chosen kinds; rounds 5-6: two raw-protocol packs overlapping in time on two connections after each kind of failed pack (LIFO buffer pool); sequence numbers across a redial",
+		bounds:      "2 pending calls, 2 frames, body <= 3 bytes; concurrency of writers and sequence allocation not yet covered (sequential schedules); also: requests over recycled contexts on the same / another session (CALL and PUSH), overlapping invocations of one struct controller built by the real RouteCall, two sessions with equal pending sequence numbers, message sequences of 3/4 solver-chosen kinds; rounds 5-6: two raw-protocol packs overlapping in time on two connections after each kind of failed pack (LIFO buffer pool); sequence numbers across a redial; round 7: four messages through one thrift-binary connection with every presence pattern of metadata",
 	})
 	registerCheck(&checkSpec{
 		id: "C04", dirs: []string{"socket", ".", "proto/jsonproto", "proto/thriftproto", "proto/httproto", "mixer/websocket/pbSubProto", "mixer/websocket/jsonSubProto"}, level: "other",
@@ -397,7 +398,8 @@ func init() {
 				J(".", "VX_C07_CloseRace", 1), J(".", "VX_C07_CloseRace", 2), J(".", "VX_C07_ModifySocket", 0), J(".", "VX_C07_ModifySocket", 1),
 				J(".", "VX_C07_DialHooks", 0), J(".", "VX_C07_DialHooks", 1), J(".", "VX_C07_DialHooks", 2), J(".", "VX_C07_CloseWaitsThenLoss", 0)}
 			js = append(js, historyJobs(tier, false)...)
-			js = append(js, J(".", "VX_C07_NoHandlerAfterClose", 0), J(".", "VX_C07_NoHandlerAfterClose", 1))
+			js = append(js, J(".", "VX_C07_NoHandlerAfterClose", 0), J(".", "VX_C07_NoHandlerAfterClose", 1),
+				J(".", "VX_C07_HandlerAwaitsCloseNotify", 0), J(".", "VX_C07_HandlerAwaitsCloseNotify", 1))
 			if tier == "thorough" {
 				js = append(js, J(".", "VX_C07_History", 5))
 			}
